@@ -624,6 +624,7 @@ class Gen:
         i, d1 = self.new_local(INT, ("intLit", 0))
         lim, d2 = self.new_local(INT, ("intLit", r.choice([1, 2, 3])))
         self.protected |= {i, lim}
+        env0 = dict(env)
         env = dict(env)
         env[i] = INT
         env[lim] = INT
@@ -645,7 +646,7 @@ class Gen:
             # assigned something else at the end of the body — its type in the body is the fixpoint, not the entry type
             x = r.choice(carried)
             t1, t2 = self.pick_subtype(self.decl[x]), self.pick_subtype(self.decl[x])
-            pre.append(("assign", x, self.expr(t1, env, 1)))
+            pre.append(("assign", x, self.expr(t1, env0, 1)))
             post.append(("assign", x, self.expr(t2, et, 1)))
             self.stat("loop-carried-local")
             head = self.uses(x, et[x], et)
